@@ -95,8 +95,8 @@ static RefLP *catalogue (int idx, char *label, size_t ll)
 /* ------------------------------------------------------------ transformations */
 /* value relation: v_f = vs * v_0 + vo */
 typedef struct { RefLP *L; mpq_t vs, vo; } Form;
-enum { T_ROWREV, T_ROWROT, T_ROWSWAP, T_COLREV, T_COLROT, T_COLSWAP, T_ROWx2, T_ROWx13, T_ROWNEG, T_ROWNEGLAST, T_COLx2, T_COLx13, T_COLSHIFT1, T_COLSHIFTNEG, T_NEGOBJ, T_DUPROW, T_REDUNDANT, T_SPLITEQ, T_COLx2LAST, T_ROWx13LAST, T_COLNEG0, T_COLNEGALL, T__COUNT };
-static const char *tname[T__COUNT] = { "reverse rows", "rotate rows", "swap rows 0,1", "reverse columns", "rotate columns", "swap columns 0,1", "row0 x 2", "row0 x 1/3", "row0 x -1 (sense flipped)", "last row x -1 (sense flipped)", "column0 scaled by 2", "column0 scaled by 1/3", "column0 shifted by +1", "last column shifted by -5/2", "negate objective, flip min/max", "duplicate row 0", "add redundant sum of two <=-rows", "split first equality", "last column scaled by 2", "last row x 1/3", "column0 negated (x = -x', bounds mirrored)", "all columns negated" };
+enum { T_ROWREV, T_ROWROT, T_ROWSWAP, T_COLREV, T_COLROT, T_COLSWAP, T_ROWx2, T_ROWx13, T_ROWNEG, T_ROWNEGLAST, T_COLx2, T_COLx13, T_COLSHIFT1, T_COLSHIFTNEG, T_NEGOBJ, T_DUPROW, T_REDUNDANT, T_SPLITEQ, T_COLx2LAST, T_ROWx13LAST, T_COLNEG0, T_COLNEGALL, T_ROWx1e8, T_ROWLASTxNEG1e8, T__COUNT };
+static const char *tname[T__COUNT] = { "reverse rows", "rotate rows", "swap rows 0,1", "reverse columns", "rotate columns", "swap columns 0,1", "row0 x 2", "row0 x 1/3", "row0 x -1 (sense flipped)", "last row x -1 (sense flipped)", "column0 scaled by 2", "column0 scaled by 1/3", "column0 shifted by +1", "last column shifted by -5/2", "negate objective, flip min/max", "duplicate row 0", "add redundant sum of two <=-rows", "split first equality", "last column scaled by 2", "last row x 1/3", "column0 negated (x = -x', bounds mirrored)", "all columns negated", "row0 x 10^8", "last row x -10^8 (sense flipped)" };
 
 static void perm_rows (RefLP * L, const int *src)   /* new row i = old row src[i] */
 {
@@ -173,6 +173,8 @@ static int transform (Form * F, int t)
 	case T_ROWx2: if (!m) { rv = 1; break; } mpq_set_si (k, 2, 1); scale_row (L, 0, k); break;
 	case T_ROWx13: if (!m) { rv = 1; break; } mpq_set_si (k, 1, 3); scale_row (L, 0, k); break;
 	case T_ROWx13LAST: if (m < 2) { rv = 1; break; } mpq_set_si (k, 1, 3); scale_row (L, m - 1, k); break;
+	case T_ROWx1e8: if (!m) { rv = 1; break; } mpq_set_si (k, 100000000, 1); scale_row (L, 0, k); break;
+	case T_ROWLASTxNEG1e8: if (m < 2) { rv = 1; break; } mpq_set_si (k, -100000000, 1); scale_row (L, m - 1, k); break;
 	case T_ROWNEG: if (!m) { rv = 1; break; } mpq_set_si (k, -1, 1); scale_row (L, 0, k); break;
 	case T_ROWNEGLAST: if (m < 2) { rv = 1; break; } mpq_set_si (k, -1, 1); scale_row (L, m - 1, k); break;
 	case T_COLx2: if (!n) { rv = 1; break; } mpq_set_si (k, 2, 1); scale_col (L, 0, k); break;
@@ -215,18 +217,19 @@ static int transform (Form * F, int t)
 }
 
 /* ------------------------------------------------------------ family */
-static int use_cat, depth2, maxcat, o_algo = DUAL_SIMPLEX;
+static int use_cat, use_T, depth2, maxcat, o_algo = DUAL_SIMPLEX;
 static void meta_init (void)
 {
 	const char *fam = opt_str ("fam", "S0q");
 	use_cat = !strcmp (fam, "CAT");
-	if (!use_cat) lpfam_select (fam);
+	use_T = !strcmp (fam, "T");
+	if (!use_cat && !use_T) lpfam_select (fam);
 	depth2 = (int) opt_int ("depth", 1) >= 2;
 	maxcat = (int) opt_int ("ncat", NCAT);
 	o_algo = !strcmp (opt_str ("algo", "dual"), "primal") ? PRIMAL_SIMPLEX : DUAL_SIMPLEX;
 	qsx_start ();
 }
-static long meta_count (void) { return (use_cat ? (long) maxcat : lpfam_count ()) * (T__COUNT + 1); }
+static long meta_count (void) { return (use_cat ? (long) maxcat : use_T ? tfam_count () : lpfam_count ()) * (T__COUNT + 1); }
 
 typedef struct { int rval, status; mpq_t val; } Ans;
 static void solve_form (const RefLP * L, Ans * A)
@@ -265,6 +268,7 @@ static void meta_run (long item)
 	char label[200] = "";
 	RefLP *L0;
 	if (use_cat) L0 = catalogue ((int) bi, label, sizeof label);
+	else if (use_T) { L0 = tfam_decode (bi, label, sizeof label); }
 	else { L0 = lpfam_decode (bi); if (L0) { SBuf b; sb_init (&b); ref_dump (&b, L0, 0); snprintf (label, sizeof label, "LP{%.180s}", b.s); sb_free (&b); } }
 	if (!L0) { STAT ("skipped_noncanonical"); return; }
 	if (!ref_wellformed (L0)) { ref_free (L0); STAT ("skipped_illformed"); return; }
